@@ -455,7 +455,9 @@ pub fn fresh_answers(ws: &Workspace, queries: &[Query], domain: u64) -> Vec<QRes
         .unwrap()
 }
 
-const K_CANCEL_STEPS: u32 = 16;
+/// Cancellation checks a reader may pass inside one query while a change is pending (one is the
+/// norm: the check it was parked at; the rest is slack).
+const K_CANCEL_STEPS: u32 = 3;
 const MAX_STEPS: u64 = 2_000_000;
 
 pub fn run_plan(plan: &Plan, keep_log: bool) -> Outcome {
@@ -648,7 +650,7 @@ pub fn run_plan(plan: &Plan, keep_log: bool) -> Outcome {
                 oracle: "liveness.prompt_cancellation".into(),
                 kinds: vec!["reader.slow_cancel".into()],
                 detail: format!(
-                    "a reader took {} own steps inside a query while a change was pending (bound {K_CANCEL_STEPS})",
+                    "a reader passed {} cancellation checks inside one query while a change was pending (bound {K_CANCEL_STEPS})",
                     stats.max_steps_to_cancel
                 ),
             });
@@ -987,7 +989,9 @@ fn check_history(plan: &Plan, versions: &[Workspace], sh: &Shared, stats: &mut R
             }
             if matches!(a[i], QResult::Panic(_)) && matches!(b[i], QResult::Panic(_)) {
                 stats.excluded_sequential_panic += 1;
-                if !matches!(l, QResult::Panic(_)) {
+                // (a cycle that two threads run into together makes one of them panic and hands
+                // the other one `Cancelled`: for an input problem both are "no answer")
+                if !matches!(l, QResult::Panic(_) | QResult::Cancelled) {
                     return Some(Violation {
                         oracle: "history.equals_fresh".into(),
                         kinds: vec![kind_tag, "ref.panics".into()],
